@@ -87,7 +87,7 @@ class C08(Prop):
         return out
 
     def oracle(self, tier, rng, suspicious):
-        results = R.run_cases(self.cases(tier, rng))
+        results = self.l1_results or R.run_cases(self.cases(tier, rng))
         mods, expect = [], {}
         for r in results:
             m = r.meta
